@@ -296,6 +296,7 @@ PROPS = {
     },
     "C20": {
         "onep": True,
+        "generated": ["gopools2v"],
         "rule": "size classes: findPool / findPutPool compared with the exact-arithmetic model for EVERY size 0..max+2 of 40 "
                 "configurations (incl. non-power-of-two min/max; one model line per configuration, ~114k sizes); 300 (thorough 8000) "
                 "Get/Put histories with content fingerprints and pointer-distinctness of held buffers; 16 concurrent workers holding "
